@@ -27,7 +27,7 @@ size_t strcpy_or_abort (void *dst, size_t d_size, const void *src)
   __CPROVER_assume (dst != NULL && src != NULL && d_size >= len + 1 && d_size <= XV_STRCPY_MAX);
   unsigned char *d = dst;
   const unsigned char *s = src;
-  for (size_t i = 0; i < XV_STRCPY_MAX; i++)
+  for (size_t i = 0; i < XV_STRCPY_MAX; i++)   /* XV_UNWIND STRCPY */
     if (i < d_size)
       d[i] = i < len ? s[i] : 0;
   return len;
